@@ -287,7 +287,7 @@ const SAFE_KEYS: &[&str] = &[
     "", "0", "1", "00", "10", "a", "b", "c", "a b", "é", "_", "_s", "_sdx", "_sc", "_se", ".", "..", "....", "sd",
     "cnf2", "A", "Z", "^", "`", "name", "addr", "addr2", "street", "n", "k", "given_name", "a.b", "x-y",
     "aaaaaaaaaaaaaaaaaaaaaaaaaaaaaaaaaaaaaaaaaaaaaaaaaaaaaaaaaaaaaaaaaaaaaaaaaaaaaaaaaaaaaaaaaaaaaaaaaaaa",
-    "sub", "iss", "aud", "iat", "nbf", "日本",
+    "sub", "iss", "aud", "iat", "nbf", "日本", "<<", "vct",
 ];
 /// names with characters that naive escaping gets wrong: combining mark (NFD), no-break space,
 /// zero-width space, C0 control, surrogate-pair character, quote and backslash
@@ -451,12 +451,86 @@ fn renumber(node: &mut Node) -> usize {
     next
 }
 
+fn forced_mark(rng: &mut Rng, cfg: &GenCfg, next_id: &mut usize) -> Mark {
+    let all = GenCfg { mark_pct: 100, ..*cfg_copy(cfg) };
+    gen_mark(rng, &all, next_id)
+}
+
+fn cfg_copy(cfg: &GenCfg) -> Box<GenCfg> {
+    Box::new(GenCfg { max_depth: cfg.max_depth, max_fanout: cfg.max_fanout, mark_pct: cfg.mark_pct, unsafe_keys: cfg.unsafe_keys, reference: cfg.reference, sentinels: cfg.sentinels })
+}
+
+/// a top-level member holding a chain (see `gen_tree`)
+fn gen_chain(rng: &mut Rng, cfg: &GenCfg, next_id: &mut usize, counter: &mut usize) -> (String, Mark, Node) {
+    // one chain in four is a bush instead: 6-8 members, each a run of 3-4 disclosable claims nested one inside
+    // the other (more than twenty disclosures over several levels)
+    if !cfg.sentinels && rng.chance(1, 4) {
+        let n = 6 + rng.below(3);
+        let mut ms: Vec<Mem> = Vec::new();
+        for b in 0..n {
+            let mut node = Node::Leaf(gen_scalar(rng, counter, false));
+            let mut mark = forced_mark(rng, cfg, next_id);
+            for _ in 0..(2 + rng.below(2)) {
+                node = Node::Obj(vec![Mem { key: rng.pick(&["a", "b", "k", "name"]).to_string(), mark, node }], SdExtra::default());
+                mark = forced_mark(rng, cfg, next_id);
+            }
+            ms.push(Mem { key: format!("m{}", b), mark, node });
+        }
+        return ("bush".to_string(), Mark::Clear, Node::Obj(ms, SdExtra::default()));
+    }
+    let nested_marks = rng.chance(1, 2);
+    let depth = if nested_marks { 6 + rng.below(4) } else { 18 + rng.below(7) };
+    // built from the bottom up
+    let mut node = Node::Leaf(gen_scalar(rng, counter, cfg.sentinels));
+    let mut mark = forced_mark(rng, cfg, next_id);
+    for level in 0..depth {
+        let as_array = !nested_marks && level % 3 == 1;
+        let inner = if as_array {
+            Node::Arr(vec![Elem { mark, node }])
+        } else {
+            let mut ms = vec![Mem { key: gen_key(rng, cfg, counter), mark, node }];
+            if rng.chance(1, 3) {
+                let k = gen_key(rng, cfg, counter);
+                if k != ms[0].key { ms.push(Mem { key: k, mark: Mark::Clear, node: Node::Leaf(gen_scalar(rng, counter, cfg.sentinels)) }); }
+            }
+            ms.sort_by(|a, b| a.key.as_bytes().cmp(b.key.as_bytes()));
+            Node::Obj(ms, SdExtra::default())
+        };
+        node = inner;
+        mark = if nested_marks { forced_mark(rng, cfg, next_id) } else { Mark::Clear };
+    }
+    (gen_key(rng, cfg, counter), mark, node)
+}
+
+impl Node {
+    /// put (or replace by) a clear top-level member
+    pub fn set_top_member(&mut self, key: &str, v: Value) {
+        if let Node::Obj(ms, _) = self {
+            ms.retain(|m| m.key != key || !matches!(m.mark, Mark::Clear));
+            if ms.iter().any(|m| m.key == key) { return; }
+            ms.push(Mem { key: key.to_string(), mark: Mark::Clear, node: Node::Leaf(v) });
+            ms.sort_by(|a, b| a.key.as_bytes().cmp(b.key.as_bytes()));
+        }
+    }
+}
+
 /// a random claims object with a random marking; at least `min_marks` marks
 pub fn gen_tree(rng: &mut Rng, cfg: &GenCfg, min_marks: usize) -> Node {
     loop {
         let mut next_id = 0;
         let mut counter = 0;
         let mut t = gen_node(rng, cfg, 0, &mut next_id, &mut counter, true);
+        // one tree in sixteen also carries a chain: either deep (18-24 levels of objects and one-element arrays,
+        // a disclosable leaf at the bottom) or a run of 6-9 disclosable claims nested one inside the other
+        if rng.chance(1, 16) {
+            let (key, mark, node) = gen_chain(rng, cfg, &mut next_id, &mut counter);
+            if let Node::Obj(ms, _) = &mut t {
+                if !ms.iter().any(|m| m.key == key) {
+                    ms.push(Mem { key, mark, node });
+                    ms.sort_by(|a, b| a.key.as_bytes().cmp(b.key.as_bytes()));
+                }
+            }
+        }
         let n = renumber(&mut t);
         if n >= min_marks {
             return t;
